@@ -69,6 +69,11 @@ where
         // restore sanitized settings to their (likely) original values
         desanitize_settings(&mut json_data.settings);
 
+        // a file that parses can still describe an ill-formed problem.
+        // Report that as an error here rather than panicking in the
+        // constructor's consistency assertions (or worse, later on)
+        validate_json_data(&json_data, settings.as_ref().unwrap_or(&json_data.settings))?;
+
         // create a solver object
         let P = json_data.P;
         let q = json_data.q;
@@ -80,6 +85,61 @@ where
 
         Ok(solver)
     }
+}
+
+fn validate_json_data<T: FloatT>(
+    data: &JsonProblemData<T>,
+    settings: &DefaultSettings<T>,
+) -> Result<(), io::Error> {
+    let invalid = |msg: String| io::Error::new(io::ErrorKind::InvalidData, msg);
+
+    data.P
+        .check_format()
+        .map_err(|e| invalid(format!("P: {}", e)))?;
+    data.A
+        .check_format()
+        .map_err(|e| invalid(format!("A: {}", e)))?;
+
+    let (m, n) = (data.b.len(), data.q.len());
+    if data.A.m != m || data.A.n != n || data.P.m != n || data.P.n != n {
+        return Err(invalid("incompatible problem dimensions".to_string()));
+    }
+
+    // cone parameters and total dimension.  No single cone can be
+    // larger than m, which also keeps the arithmetic below in range
+    let mut p = 0usize;
+    for cone in data.cones.iter() {
+        let ok = match cone {
+            SupportedConeT::ZeroConeT(dim)
+            | SupportedConeT::NonnegativeConeT(dim)
+            | SupportedConeT::SecondOrderConeT(dim) => *dim <= m,
+            SupportedConeT::ExponentialConeT() => true,
+            SupportedConeT::PowerConeT(α) => *α > T::zero() && *α < T::one(),
+            SupportedConeT::GenPowerConeT(α, dim2) => {
+                α.len() <= m
+                    && *dim2 <= m
+                    && α.iter().all(|r| *r > T::zero())
+                    && (T::one() - α.sum()).abs() < (T::epsilon() * α.len().as_T() * (0.5).as_T())
+            }
+            #[cfg(feature = "sdp")]
+            SupportedConeT::PSDTriangleConeT(dim) => *dim <= m,
+        };
+        if !ok {
+            return Err(invalid(format!("invalid cone specification: {:?}", cone)));
+        }
+        p = p.saturating_add(cone.nvars());
+    }
+    if p != m {
+        return Err(invalid(
+            "constraint dimensions inconsistent with size of cones".to_string(),
+        ));
+    }
+
+    settings.validate().map_err(invalid)?;
+    if !settings.direct_kkt_solver {
+        return Err(invalid("indirect KKT solvers are not supported".to_string()));
+    }
+    Ok(())
 }
 
 fn sanitize_settings<T: FloatT>(settings: &mut DefaultSettings<T>) {
